@@ -237,7 +237,7 @@ ended. -/
 theorem no_placeholder_survives_component_trees (env : Djc.Render.Env) (hlib : Djc.Proofs.Tree.GoodLib env) (fuel : Nat)
     (name : Djc.Tpl.Str) (kwargs : List (Djc.Tpl.Str × Djc.Tpl.Expr)) (only dyn : Bool) (body : List Djc.Tpl.Node) (ctx : Djc.Tpl.Ctx)
     (w w' : Djc.Render.World) (toks : List Djc.Tpl.Tok)
-    (hd : Djc.Render.isDynName name = false) (hb : Djc.Proofs.Tree.fbody body = true) (hc : Djc.Proofs.Plain.ctxFree ctx = true)
+    (hd : Djc.Render.isDynName name = false) (hb : Djc.Proofs.Tree.gbody body = true) (hc : Djc.Proofs.Plain.ctxFree ctx = true)
     (hw : Djc.Proofs.Tree.WInv w)
     (hext : Djc.Render.isExtracting ctx = false)
     (hpar : Djc.Proofs.Tree.parentOf (if only || env.isolated then Djc.Render.isolatedCopy ctx else ctx) = none)
